@@ -1,13 +1,13 @@
 package t_p2p
 
 import (
-	"sort"
 	"bytes"
 	"context"
 	"fmt"
 	"math/big"
 	"os"
 	"path/filepath"
+	"sort"
 	"sync"
 	"testing"
 	"time"
@@ -153,6 +153,10 @@ type recorder struct {
 	walAt    map[string]map[string]bool // message id -> set of slot|sig in the WAL at publish time
 	attempts int
 	errs     []string
+	// seq: message id -> position of its first Publish call (the trace event is emitted
+	// synchronously inside Publish, on the caller's goroutine). The observer's arrival order
+	// is not the publication order: its validation pipeline is concurrent.
+	seq map[string]int
 }
 
 func slotSig(k slot, sig []byte) string { return fmt.Sprintf("%+v|%x", k, sig) }
@@ -175,6 +179,12 @@ func (r *recorder) Trace(evt *pubsub_pb.TraceEvent) {
 	r.attempts++
 	if _, ok := r.walAt[id]; !ok {
 		r.walAt[id] = set
+	}
+	if r.seq == nil {
+		r.seq = map[string]int{}
+	}
+	if _, ok := r.seq[id]; !ok {
+		r.seq[id] = len(r.seq)
 	}
 }
 
@@ -483,7 +493,16 @@ func TestC12Node(t *testing.T) {
 			var maxPub uint64
 			havePub := false
 			var failSig, failMsg string
-			for i, p := range rec.pubs {
+			ordered := append([]published(nil), rec.pubs...)
+			sort.SliceStable(ordered, func(a, b int) bool {
+				sa, oka := rec.seq[ordered[a].id]
+				sb, okb := rec.seq[ordered[b].id]
+				if oka && okb {
+					return sa < sb
+				}
+				return oka && !okb
+			})
+			for i, p := range ordered {
 				if prev, ok := seen[p.key]; ok && !bytes.Equal(prev, p.sig) {
 					failSig, failMsg = "C12/node/self-equivocation-on-the-wire", fmt.Sprintf("two differently signed messages for slot %+v were handed to the network (publication #%d)", p.key, i)
 				}
